@@ -336,6 +336,10 @@ pub fn c12() -> Outcome {
     // error conditions
     for (what, mut i, id) in [
         ("unknown id", inst(vec![dv(3, Kind::Integer, Some((0.0, 3.0)))], Function::default(), vec![]), 4u64),
+        ("unknown id: instance without variables", inst(vec![], Function::default(), vec![]), 3u64),
+        ("unknown id: instance without variables, id 0", inst(vec![], Function::default(), vec![]), 0u64),
+        ("unknown id below the defined ones", inst(vec![dv(3, Kind::Integer, Some((0.0, 3.0))), dv(9, Kind::Integer, Some((0.0, 3.0)))], Function::default(), vec![]), 1u64),
+        ("unknown id between the defined ones", inst(vec![dv(3, Kind::Integer, Some((0.0, 3.0))), dv(9, Kind::Integer, Some((0.0, 3.0)))], Function::default(), vec![]), 5u64),
         ("not integer", inst(vec![dv(3, Kind::Continuous, Some((0.0, 3.0)))], Function::default(), vec![]), 3),
         ("no bound", inst(vec![dv(3, Kind::Integer, None)], Function::default(), vec![]), 3),
         ("not integer: semi-integer", inst(vec![dv(3, Kind::SemiInteger, Some((1.0, 3.0)))], Function::default(), vec![]), 3),
@@ -348,7 +352,11 @@ pub fn c12() -> Outcome {
     ] {
         n += 1;
         let before = i.clone();
-        if i.log_encode(id).is_ok() || i != before { return Outcome { cases: n, distinct: d.len(), fail: Some(format!("log_encode must fail and change nothing: {what}")) }; }
+        let r = std::panic::catch_unwind(move || { let r = i.log_encode(id).is_ok(); (r, i) });
+        match r {
+            Err(_) => return Outcome { cases: n, distinct: d.len(), fail: Some(format!("log_encode panicked instead of returning an error: {what}")) },
+            Ok((ok, i)) => if ok || i != before { return Outcome { cases: n, distinct: d.len(), fail: Some(format!("log_encode must fail and change nothing: {what}")) }; }
+        }
     }
     Outcome { cases: n, distinct: d.len(), fail: None }
 }
@@ -431,6 +439,34 @@ pub fn c14() -> Outcome {
             }
         } }
     }
+    // a state that gives no value to a variable of a constraint: whatever evaluate answers (an error) it answers before the relax, after it and after the restore;
+    // and a variable that only a relaxed constraint mentions is treated like any other (values / feasibility of the relaxed constraint included)
+    {
+        let mk = |b1: (f64, f64)| inst(vec![dv(0, Kind::Continuous, Some((-10.0, 10.0))), dv(1, Kind::Continuous, Some(b1))], f_of(F::Linear(lin(&[(0, 1.0)], 0.0))),
+            vec![con(10, Equality::LessThanOrEqualToZero, f_of(F::Linear(lin(&[(0, 1.0)], -1.0)))), con(11, Equality::LessThanOrEqualToZero, f_of(F::Linear(lin(&[(1, 1.0)], -1.0))))]);
+        let show = |r: &Result<(bool, Option<bool>, Vec<(u64, f64)>), String>| match r { Ok(x) => format!("Ok{x:?}"), Err(_) => "Err".to_string() };
+        for (bi, b1) in [(-10.0, 10.0), (2.0, 10.0), (-10.0, 0.0)].into_iter().enumerate() { for (si, st) in [state(&[(0, 0.0)]), state(&[(0, 0.0), (1, 3.0)]), state(&[(0, 0.0), (1, 0.5)]), state(&[(1, 0.5)]), state(&[])].into_iter().enumerate() {
+            n += 1; d.insert(vec![(false, 2000 + bi as u64), (false, si as u64)]);
+            let eval = |i: &Instance| -> Result<(bool, Option<bool>, Vec<(u64, f64)>), String> {
+                let (sol, _) = i.evaluate(&st).map_err(|e| e.to_string())?;
+                let mut vs: Vec<(u64, f64)> = sol.evaluated_constraints.iter().map(|c| (c.id, c.evaluated_value)).collect(); vs.sort_by_key(|x| x.0);
+                Ok((sol.feasible, sol.feasible_relaxed, vs))
+            };
+            let i0 = mk(b1);
+            let base = eval(&i0);
+            for which in [10u64, 11] {
+                let mut i = i0.clone();
+                i.relax_constraint(which, "r".to_string(), HashMap::new()).unwrap();
+                let mid = eval(&i);
+                let same = match (&base, &mid) { (Ok(a), Ok(b)) => a.0 == b.0 && a.2 == b.2, (Err(_), Err(_)) => true, _ => false };
+                if !same { return Outcome { cases: n, distinct: d.len(), fail: Some(format!("x1 in {b1:?}, state {st:?}: evaluate answers {} with both constraints active and {} after relaxing constraint {which} (feasibility and per-constraint values must not depend on the list a constraint is in)", show(&base), show(&mid))) }; }
+                i.restore_constraint(which).unwrap();
+                let end = eval(&i);
+                let same = match (&base, &end) { (Ok(a), Ok(b)) => a == b, (Err(_), Err(_)) => true, _ => false };
+                if !same { return Outcome { cases: n, distinct: d.len(), fail: Some(format!("x1 in {b1:?}, state {st:?}: evaluate answers {} before and {} after relax + restore of constraint {which}", show(&base), show(&end))) }; }
+            }
+        } }
+    }
     Outcome { cases: n, distinct: d.len(), fail: None }
 }
 
@@ -492,6 +528,19 @@ pub fn c08() -> Outcome {
         if v.is_err() != *vfail { return Outcome { cases: n, distinct: d.len(), fail: Some(format!("Instance::validate on '{name}': ok={}, expected ok={}", v.is_ok(), !vfail)) }; }
         let t = ommx::Instance::try_from(i.clone());
         if t.is_err() != *tfail { return Outcome { cases: n, distinct: d.len(), fail: Some(format!("TryFrom<v1::Instance> on '{name}': ok={}, expected ok={}{}", t.is_ok(), !tfail, t.err().map(|e| format!(" ({e})")).unwrap_or_default())) }; }
+        // "reports the violated rule with the path to the offending field": the traceback names the field of ommx.v1.Instance the fault sits in
+        if let Err(e) = &t {
+            let field = if name.starts_with("duplicate variable") || name.starts_with("kind") || name.starts_with("bound") { "decision_variables" }
+                else if name.contains("active/removed") || name.contains("removed/removed") || name.starts_with("removed constraint") { "removed_constraints" }
+                else if name.starts_with("duplicate id") || name.starts_with("constraint function") || name.starts_with("equality") { "constraints" }
+                else if name.starts_with("sense") { "sense" } else if name.starts_with("objective") { "objective" }
+                else if name.starts_with("one-hot") || name.starts_with("sos1") { "constraint_hints" } else if name.starts_with("dependency") { "decision_variable_dependency" } else { "" };
+            let shown = format!("{e}");
+            // (either as a traceback line `ommx.v1.Instance[field]` or, for a missing field, in the rule itself: "Field objective in ommx.v1.Instance is missing")
+            if !field.is_empty() && !(shown.contains(&format!("ommx.v1.Instance[{field}]")) || shown.contains(&format!("Field {field} in ommx.v1.Instance"))) {
+                return Outcome { cases: n, distinct: d.len(), fail: Some(format!("TryFrom<v1::Instance> on '{name}': the error does not carry the path to the offending field ommx.v1.Instance[{field}]: {shown}")) };
+            }
+        }
     }
     // parametric instances: decision-variable and parameter ids jointly unique and covering every id used by the objective and active constraints
     {
